@@ -204,7 +204,11 @@ static void bfs(int depth)
             hs += opstr(op);
             seqx::begin_case("%s", hs.c_str());
             ++seqx::g->transitions;
-            // fresh real objects, history replayed, every step compared
+            // fresh real objects, history replayed, every step compared; then a probe suffix (histories
+            // are merged on the reference state, a hidden counter gone wrong must show in the future):
+            // probe 0 requests stop through every live source, probe 1 drops every source (stop_possible
+            // of the remaining tokens must follow)
+            for (int probe_kind = 0; probe_kind < 2; ++probe_kind)
             {
                 Real real;
                 Ref ref;
@@ -214,15 +218,14 @@ static void bfs(int depth)
                 {
                     real.apply(all[i]);
                     ref.apply(all[i]);
+                    if (probe_kind) continue;    // compared step by step in the first replay
                     std::string a = real.observe(), b = ref.observe();
                     SEQX_CHECK(a == b, "model-mismatch", "after step %zu (%s): real [%s] != reference [%s]  (legend: S=source possible/requested, T=token possible/requested, C=callback runs, r=request_stop result)",
                         i + 1, opstr(all[i]).c_str(), a.c_str(), b.c_str());
                 }
-                // probe suffix (histories are merged on the reference state): request stop through
-                // every live source and look at every observable once more
                 for (int i = 0; i < 2; ++i)
                 {
-                    Op probe{REQ_STOP, i, 0};
+                    Op probe{probe_kind == 0 ? REQ_STOP : SRC_RESET, i, 0};
                     if (!ref.enabled(probe)) continue;
                     real.apply(probe);
                     ref.apply(probe);
@@ -245,7 +248,7 @@ static void bfs(int depth)
     }
 }
 
-static void on_os_thread(bool thorough) { bfs(thorough ? 6 : 5); }
+static void on_os_thread(bool thorough) { bfs(thorough ? 14 : 10); }
 static void on_pika_task(bool thorough)
 {
     static const char* argv[] = {"C14_stop_seq", nullptr};
@@ -254,7 +257,7 @@ static void on_pika_task(bool thorough)
     pika::start(nullptr, 1, argv, p);
     namespace ex = pika::execution::experimental;
     pika::this_thread::experimental::sync_wait(ex::schedule(ex::thread_pool_scheduler{}) | ex::then([&] {
-        try { bfs(thorough ? 5 : 4); }
+        try { bfs(thorough ? 13 : 9); }
         catch (seqx::violation_exception&) {}
     }));
     pika::finalize();
@@ -271,5 +274,5 @@ int main(int argc, char** argv)
     };
     return seqx::main_loop(o, specs,
         "BFS over operation histories {source new/reset/copy-assign/move-assign/copy-construct/swap, get_token, token copy/clear, request_stop, callback register/destroy} to the depth bound, de-duplicated on the reference model's canonical state; every transition replayed on fresh real objects and compared step by step",
-        {"sequential histories only (races are covered by the pmc part)", "depth bound 5 (OS thread) / 4 (pika task) in the quick tier, 6 / 5 in the thorough tier"});
+        {"sequential histories only (races are covered by the pmc part)", "depth bound 10 (OS thread) / 9 (pika task) in the quick tier, 14 / 13 in the thorough tier (the de-duplicated search runs out of new reference states before that); two probe suffixes per transition (request stop through every source; drop every source)"});
 }
